@@ -77,6 +77,8 @@ def menu(with_blobs, names=None):
     names = list(names)
     if with_blobs:
         ops += [('load-bin', 'A'), ('load-asc', 'B'), ('load-file', 'C'), ('load-list', 'A+Dsec'), ('load-bin', 'E'), ('load-asc', 'Dpub')]
+        # one blob holding several keys, among them both halves of one key (an export of a whole keyring)
+        ops += [('load-blob', 'Dpub+Dsec'), ('load-blob', 'Dsec+Dpub'), ('load-blob', 'Epub+A+E')]
     return ops
 
 
@@ -169,6 +171,11 @@ class Prop(object):
                         os.unlink(tmp.name)
                         tmp = None
                     loaded.append((arg, str(o.fingerprint), o.is_public, None))
+                elif kind == 'load-blob':
+                    parts = arg.split('+')
+                    kr.load(b''.join(bytes(objs[x]) for x in parts))
+                    for x in parts:
+                        loaded.append((x, str(objs[x].fingerprint), objs[x].is_public, None))
                 elif kind == 'load-list':
                     a, b = arg.split('+')
                     kr.load([bytes(objs[a]), str(objs[b])])
